@@ -149,8 +149,15 @@ def _one(rng, big=False):
         files = files[:2] + SEMI
     loud_tgt = 0.06 <= scen < 0.26
     src, tgt = [], []
-    for t in times:
+    late = rng.random() < 0.12
+    if late:
+        # late in a chart, times a millisecond or two apart: "the same time" must stay exact equality, whatever the magnitude
+        base = 8 * rng.choice([150000, 400000, 10 ** 6, 3600000])
+        times = [base + d for d in rng.sample([0, 1, 8, 16, -8, 24, 80], k=min(k, 7))]
+    for j, t in enumerate(times):
         side = rng.random()
+        if late and rng.random() < 0.7:
+            side = 0.2 if j % 2 else 0.05          # alternately target-less / source-less neighbours
         ns = 0 if side < 0.12 else rng.choice([1, 1, 2, 2, 3, 4, 6] + ([12, 20] if big else []))
         nt = 0 if 0.12 <= side < 0.27 else rng.choice([1, 1, 2, 2, 3, 5] + ([10, 18] if big else []))
         for _ in range(ns):
